@@ -1,18 +1,26 @@
 /-
-  C40 — model of the SPDY server's stream and flow-control rules (bfe_spdy/flow.go, server_process_frame.go
-  processSynStream / processData / processWindowUpdate / processResetStream / processSettingInitialWindowSize /
-  processPing, server_conn.go processFrameFromReader / resetStream / closeStream / goAway), at the granularity of
-  one client frame = one step of the serve loop.  Core-only.
-  The handler of the modelled server never reads the request body and never writes (as in the harness): nothing is
-  replenished and nothing is sent on the streams, so every frame the server emits comes from these functions.
+  C40 — model of the SPDY server's stream and flow-control rules (bfe_spdy/flow.go, server_process_frame.go,
+  server_flow_control.go, server_write_sched.go takeFrom, server_conn.go processFrameFromReader / resetStream /
+  closeStream / wroteFrame / goAway, response_writer.go writeChunk / handlerDone, request_body.go Read).  Core-only.
+
+  Granularity: one client frame or one handler command = one `step` of the serve loop, followed by `settle`:
+  atomic micro-steps (`micro`) of the handler goroutines and of the write scheduler until nothing can move.
+  Handlers are scripted (as in the harness): a FIFO of commands `read n` (io.ReadFull on the body), `write n`
+  (Write+Flush), `finish` (return).  `flowAdd` is the code AFTER fix C40-flow-add (sum based overflow test).
+  `opened` is a ghost field (ids of the streams created, in order); everything else mirrors serverConn/stream.
 -/
 namespace BfeVerif.C40
 
 /-- Go int32 wrap-around -/
 def wrap32 (x : Int) : Int := (x + 2147483648) % 4294967296 - 2147483648
 
-/-- `flow.add`: `remain := (1<<31 - 1) - f.n; if n > remain { return false }; f.n += n` (all on int32). -/
+/-- `flow.add` (fixed): `sum := f.n + n; if (sum > n) == (f.n > 0) { f.n = sum; return true }; return false` -/
 def flowAdd (f n : Int) : Option Int :=
+  let sum := wrap32 (f + n)
+  if (decide (sum > n)) = (decide (f > 0)) then some sum else none
+
+/-- the unfixed `flow.add`, kept for the witness: `remain := (1<<31-1) - f.n; if n > remain { return false }` -/
+def flowAddOld (f n : Int) : Option Int :=
   if n > wrap32 (2147483647 - f) then none else some (wrap32 (f + n))
 
 /-- `flow.available` for a stream flow linked to the connection flow -/
@@ -22,21 +30,45 @@ def available (s c : Int) : Int := if c < s then c else s
 def flowTake (s c n : Int) : Option (Int × Int) :=
   if n > available s c then none else some (wrap32 (s - n), wrap32 (c - n))
 
+def maxFrame : Int := 16384
+def initWin : Int := 65536
+
 structure St where
   id : Nat
-  isOpen : Bool          -- stateOpen (true) / stateHalfClosedRemote (false)
-  inflow : Int
+  alive : Bool := true    -- still in sc.streams
+  isOpen : Bool           -- stateOpen (true) / stateHalfClosedRemote (false)
+  inflow : Int := 65536
   flow : Int
+  hasBody : Bool          -- request created with a body pipe
+  buf : Nat := 0          -- unread bytes in the body pipe
+  eof : Bool := false     -- FIN seen: pipe closed with io.EOF
+  deriving Repr, DecidableEq
+
+inductive Cmd
+  | read (n : Nat)
+  | write (n : Nat)
+  | send (r : Nat)        -- a DATA frame of r bytes is queued in the scheduler, the handler waits for it
+  | finish
+  deriving Repr, DecidableEq
+
+structure H where
+  id : Nat
+  queue : List Cmd := []
+  sentHeader : Bool := false
+  werr : Bool := false    -- sticky error of the handler's bufio.Writer
   deriving Repr, DecidableEq
 
 structure State where
   maxId : Nat := 0
   streams : List St := []
+  handlers : List H := []
   connIn : Int := 65536
   connFlow : Int := 65536
   iws : Int := 65536
   cur : Nat := 0
   adv : Nat := 200
+  kick : Bool := false     -- scheduleFrameWrite has been called since the last event
+  opened : List Nat := []  -- ghost
   deriving Repr
 
 inductive Ev
@@ -46,12 +78,16 @@ inductive Ev
   | rst (id status : Nat)
   | iws (val : Nat)
   | ping (id : Nat)
+  | hcmd (id : Nat) (c : Cmd)
   deriving Repr
 
 inductive Out
   | rst (id status : Nat)
   | goaway (last status : Nat)
   | ping (id : Nat)
+  | wu (id n : Nat)
+  | reply (id : Nat) (fin : Bool)
+  | data (id len : Nat) (fin : Bool)
   deriving Repr, DecidableEq
 
 inductive Status | run | closed | stop | panic
@@ -62,36 +98,72 @@ structure Res where
   out : List Out := []
   status : Status := .run
 
-def find (s : State) (id : Nat) : Option St := s.streams.find? (·.id = id)
+def find (s : State) (id : Nat) : Option St := s.streams.find? fun x => x.id = id ∧ x.alive
 
-/-- `closeStream` -/
+def findAny (s : State) (id : Nat) : Option St := s.streams.find? fun x => x.id = id
+
+/-- apply `f` to the stream `id` -/
+def updSt (s : State) (id : Nat) (f : St → St) : State :=
+  { s with streams := s.streams.map fun x => if x.id = id then f x else x }
+
+def updH (s : State) (id : Nat) (f : H → H) : State :=
+  { s with handlers := s.handlers.map fun h => if h.id = id then f h else h }
+
+def dropSend : List Cmd → List Cmd
+  | .send _ :: q => q
+  | q => q
+
+/-- what `closeStream` sends: the unread bytes of the body are given back to the connection window
+    (fix C40-conn-window-return, as golang.org/issue/16481) -/
+def closeOut (s : State) (id : Nat) : List Out :=
+  match find s id with
+  | none => []
+  | some st => if st.buf > 0 then [.wu 0 st.buf] else []
+
+/-- `closeStream`: out of the table, body pipe closed, its unread bytes returned to the connection window and its
+    buffer released, scheduler queue forgotten (a handler waiting for a queued DATA frame gets errStreamClosed:
+    its bufio.Writer keeps the error). -/
 def close (s : State) (id : Nat) : State :=
-  if (find s id).isSome then { s with streams := s.streams.filter (·.id ≠ id), cur := s.cur - 1 } else s
+  match find s id with
+  | none => s
+  | some st =>
+    let s := { s with connIn := if st.buf > 0 then (flowAdd s.connIn st.buf).getD s.connIn else s.connIn,
+                      kick := s.kick || decide (st.buf > 0) }
+    let s := updSt s id fun x => { x with alive := false, buf := 0 }
+    let s := updH s id fun h =>
+      match h.queue with
+      | .send _ :: q => { h with queue := q, werr := true }
+      | _ => h
+    { s with cur := s.cur - 1 }
 
-/-- `resetStream(StreamError{id, code})`: RST_STREAM is queued, the stream (if any) is closed. -/
-def reset (s : State) (id code : Nat) : Res := { st := close s id, out := [.rst id code] }
-
-def upd (s : State) (st : St) : State :=
-  { s with streams := s.streams.map fun x => if x.id = st.id then st else x }
+/-- `resetStream(StreamError{id, code})`: RST_STREAM is queued (a frame write: the scheduler is kicked). -/
+def reset (s : State) (id code : Nat) : Res :=
+  { st := { close s id with kick := true }, out := [.rst id code] ++ closeOut s id }
 
 def goAway (s : State) (code : Nat) : Res := { st := s, out := [.goaway s.maxId code], status := .stop }
 
-/-- all streams get `flow.add(growth)`; `none` = one of them overflowed. -/
+/-- all live streams get `flow.add(growth)`; `none` = one of them overflowed. -/
 def growAll : List St → Int → Option (List St)
   | [], _ => some []
   | st :: t, g =>
-    match flowAdd st.flow g, growAll t g with
-    | some f, some t' => some ({ st with flow := f } :: t')
-    | _, _ => none
+    if st.alive then
+      match flowAdd st.flow g, growAll t g with
+      | some f, some t' => some ({ st with flow := f } :: t')
+      | _, _ => none
+    else (growAll t g).map (st :: ·)
 
-def step (s : State) : Ev → Res
+/-- one client frame / handler command processed by the serve loop -/
+def step (s0 : State) (e : Ev) : Res :=
+  let s := { s0 with kick := false }
+  match e with
   | .syn id fin =>
     if id = 0 then { st := s }          -- the client's own writer refuses stream id 0: nothing is sent
     else if id % 2 ≠ 1 ∨ id < s.maxId then goAway s 1
     else if id = s.maxId then reset s id 1
     else
-      let st : St := { id, isOpen := !fin, inflow := (flowAdd 0 65536).getD 0, flow := (flowAdd 0 s.iws).getD 0 }
-      let s' := { s with maxId := id, streams := s.streams ++ [st], cur := s.cur + 1 }
+      let st : St := { id, isOpen := !fin, flow := (flowAdd 0 s.iws).getD 0, hasBody := !fin }
+      let s' := { s with maxId := id, streams := s.streams ++ [st], handlers := s.handlers ++ [{ id }],
+                         cur := s.cur + 1, opened := s.opened ++ [id] }
       if s'.cur > s'.adv then { st := s', status := .closed } else { st := s' }
   | .data id len fin =>
     if id = 0 then { st := s } else
@@ -103,9 +175,14 @@ def step (s : State) : Ev → Res
         if available st.inflow s.connIn < len then reset s id 7
         else match flowTake st.inflow s.connIn len with
           | none => { st := s, status := .panic }
-          | some (i, c) =>
-            { st := upd { s with connIn := c } { st with inflow := i, isOpen := st.isOpen && !fin } }
-      else { st := upd s { st with isOpen := st.isOpen && !fin } }
+          | some (_, c) =>
+            -- (`st.inflow.take`: the stream's own window is debited; the guard is true for the stream found)
+            { st := updSt { s with connIn := c } id fun x =>
+                if (len : Int) ≤ x.inflow then
+                  { x with inflow := wrap32 (x.inflow - len), buf := x.buf + len, isOpen := x.isOpen && !fin,
+                           eof := x.eof || fin }
+                else x }
+      else { st := updSt s id fun x => { x with isOpen := x.isOpen && !fin, eof := x.eof || fin } }
   | .wu id delta =>
     let d : Int := (delta % 2147483648 : Nat)
     if id ≠ 0 then
@@ -114,13 +191,13 @@ def step (s : State) : Ev → Res
       | some st =>
         match flowAdd st.flow d with
         | none => reset s id 7
-        | some f => { st := upd s { st with flow := f } }
+        | some f => { st := { updSt s id (fun x => { x with flow := f }) with kick := true } }
     else match flowAdd s.connFlow d with
       | none => goAway s 7
-      | some f => { st := { s with connFlow := f } }
+      | some f => { st := { s with connFlow := f, kick := true } }
   | .rst id _ =>
     if id = 0 then { st := s }
-    else if (find s id).isSome then { st := close s id }
+    else if (find s id).isSome then { st := close s id, out := closeOut s id }
     else if id ≤ s.maxId then { st := s }
     else goAway s 1
   | .iws val =>
@@ -130,15 +207,108 @@ def step (s : State) : Ev → Res
     match growAll s.streams growth with
     | none => goAway s 7
     | some l => { st := { s with streams := l } }
-  | .ping id => if id = 0 ∨ id % 2 = 0 then { st := s } else { st := s, out := [.ping id] }
+  | .ping id => if id = 0 ∨ id % 2 = 0 then { st := s } else { st := { s with kick := true }, out := [.ping id] }
+  | .hcmd id c =>
+    { st := updH s id fun h => { h with queue := h.queue ++ [c] } }
+
+/-- what the scheduler may take for a DATA frame of stream `st` now (`takeFrom`) -/
+def allowed (s : State) (st : St) : Int :=
+  let a := available st.flow s.connFlow
+  if maxFrame < a then maxFrame else a
+
+/-- debit `c` bytes from the stream's and the connection's outbound window (`flow.take`) -/
+def takeOut (s : State) (id : Nat) (c : Nat) : State :=
+  updSt { s with connFlow := wrap32 (s.connFlow - c) } id fun x => { x with flow := wrap32 (x.flow - c) }
+
+def popCmd (s : State) (id : Nat) : State := updH s id fun h => { h with queue := h.queue.drop 1 }
+
+def setHead (s : State) (id : Nat) (c : Cmd) : State := updH s id fun h => { h with queue := c :: h.queue.drop 1 }
+
+/-- one atomic action of handler `h` (or of the scheduler on its behalf), if it can move. -/
+def microH (s : State) (st : St) (h : H) : Option (State × List Out) :=
+    match h.queue with
+    | [] => none
+    | .read n :: _ =>
+      if n = 0 ∨ !st.hasBody ∨ !st.alive then some (popCmd s h.id, [])
+      else if st.buf > 0 then
+        let k := min n st.buf
+        -- noteBodyRead: connection WINDOW_UPDATE always, stream one unless half closed (remote)
+        let s1 := { s with connIn := (flowAdd s.connIn k).getD s.connIn, kick := true }
+        let s2 := updSt s1 h.id fun x =>
+          if k ≤ x.buf then
+            { x with buf := x.buf - k, inflow := if x.isOpen then (flowAdd x.inflow k).getD x.inflow else x.inflow }
+          else x
+        let s3 := if n - k = 0 then popCmd s2 h.id else setHead s2 h.id (.read (n - k))
+        some (s3, [.wu 0 k] ++ (if st.isOpen then [.wu h.id k] else []))
+      else if st.eof then some (popCmd s h.id, [])
+      else none
+    | .write n :: _ =>
+      if h.werr then some (popCmd s h.id, [])
+      else if !h.sentHeader then
+        -- first chunk: the SYN_REPLY goes first (skipped by startFrameWrite if the stream is closed)
+        if st.alive then
+          let s1 := updH { s with kick := true } h.id fun x => { x with sentHeader := true }
+          some (if n = 0 then popCmd s1 h.id else setHead s1 h.id (.write n), [.reply h.id false])
+        else
+          -- (a frame for a closed stream is dropped by writeFrame, fix C40-closed-stream-writes: no scheduler kick)
+          let s1 := updH s h.id fun x => { x with sentHeader := true, werr := decide (n > 0) }
+          some (popCmd s1 h.id, [])
+      else if n = 0 then some (popCmd s h.id, [])
+      else if st.alive then some (setHead { s with kick := true } h.id (.send n), [])
+      else some (popCmd (updH s h.id fun x => { x with werr := true }) h.id, [])
+    | .send r :: _ =>
+      if !st.alive then some (popCmd s h.id, [])
+      else if s.kick ∧ allowed s st > 0 then
+        let c := min r (allowed s st).toNat
+        let s1 := takeOut s h.id c
+        some (if r - c = 0 then popCmd s1 h.id else setHead s1 h.id (.send (r - c)), [.data h.id c false])
+      else none
+    | .finish :: _ =>
+      let s1 := { s with handlers := s.handlers.filter fun x => x.id ≠ h.id, kick := s.kick || st.alive }
+      if st.alive then
+        let first := if h.sentHeader then Out.data h.id 0 true else Out.reply h.id true
+        -- wroteFrame: an open stream is cancelled (RST_STREAM CANCEL), a half closed one just closed
+        some (close s1 h.id, (if st.isOpen then [first, .rst h.id 5] else [first]) ++ closeOut s1 h.id)
+      else some (s1, [])
+
+/-- one atomic action concerning stream `st`: its handler (or the scheduler on the handler's behalf) moves. -/
+def microS (s : State) (st : St) : Option (State × List Out) :=
+  match s.handlers.find? (fun h => h.id = st.id) with
+  | none => none
+  | some h => microH s st h
+
+/-- the first stream (in the given order) on which something can move -/
+def microFirst (s : State) : List St → Option (State × List Out)
+  | [] => none
+  | st :: t => match microS s st with
+    | some r => some r
+    | none => microFirst s t
+
+/-- run micro-steps until nothing moves.  `rev` = visit the handlers in the opposite order (the real scheduler
+    ranges over Go maps): the driver compares both orders and skips cases where they differ. -/
+def settle (rev : Bool) : Nat → State → List Out → State × List Out
+  | 0, s, acc => (s, acc)
+  | fuel + 1, s, acc =>
+    match microFirst s (if rev then s.streams.reverse else s.streams) with
+    | none => (s, acc)
+    | some (s', o) => settle rev fuel s' (acc ++ o)
+
+def settleFuel : Nat := 400
+
+/-- one event to quiescence -/
+def stepQ (rev : Bool) (s : State) (e : Ev) : Res :=
+  let r := step s e
+  match r.status with
+  | .run => let (s', o) := settle rev settleFuel r.st r.out; { st := s', out := o }
+  | _ => r
 
 /-- run a script; the outputs per event, and the final status. -/
-def runScript : State → List Ev → List (List Out) × Status × State
+def runScript (rev : Bool) : State → List Ev → List (List Out) × Status × State
   | s, [] => ([], .run, s)
   | s, e :: t =>
-    let r := step s e
+    let r := stepQ rev s e
     match r.status with
-    | .run => let (o, st, s') := runScript r.st t; (r.out :: o, st, s')
+    | .run => let (o, st, s') := runScript rev r.st t; (r.out :: o, st, s')
     | x => ([r.out], x, r.st)
 
 end BfeVerif.C40
